@@ -166,7 +166,7 @@ def dispatcher(ctx):
 
 
 # ------------------------------------------------------------------ importers
-def importer_traces(ctx, m, strategy, attrs, fmf=(), merged=None):
+def importer_traces(ctx, m, strategy, attrs, fmf=(), merged=None, real_dispatcher=None):
     """One pass of the line loop for a colliding newcomer under `strategy`."""
     it = Interp(ctx)
     so = Opaque("self", "obj")
@@ -208,7 +208,11 @@ def importer_traces(ctx, m, strategy, attrs, fmf=(), merged=None):
         o.attrs["of"] = pos[0]
         return o
     it.summaries["create._DBCreator._insert"] = s_insert
-    it.summaries["create._DBCreator._do_merge"] = s_merge
+    if real_dispatcher is None:
+        it.summaries["create._DBCreator._do_merge"] = s_merge
+    else:
+        # the package's own dispatcher, with the stored candidates given
+        it.summaries["create._DBCreator._candidate_merges"] = lambda i, pos, kw, node: list(real_dispatcher)
     it.summaries["create._DBCreator._id_handler"] = lambda i, pos, kw, node: "K"
     it.summaries["create._DBCreator._replace"] = s_replace
     it.summaries["helpers._jsonify"] = s_json
@@ -272,6 +276,13 @@ def _effects(ctx, t, E):
     return feats, rels
 
 
+def _effects_all(ctx, t):
+    """(feature effects, relation rows) of a whole trace (dispatcher not summarised)."""
+    t2 = type("T", (), {})()
+    t2.events = [("dispatch", None, None, None)] + list(t.events)
+    return _effects(ctx, t2, mkfeat("none", None, {}))
+
+
 def importers(ctx, sch):
     meths = populate_methods(ctx)
     ctx.floor("R1", len(meths), 2, "importers with a collision handler")
@@ -330,6 +341,21 @@ def importers(ctx, sch):
                 ok = sorted(rels, key=repr) == sorted(want_rel(child), key=repr)
                 ctx.ob("R5", ok, "%s: under '%s' the newcomer's links are added under its final id (no Parent link is lost or invented)" % (name, strat), func=m,
                        sig="%s: relation rows under %s: %s" % (name, strat, sorted(rels, key=repr)), nontrivial=False)
+        # end to end with the package's own dispatcher: the newcomer agrees with an earlier '<key>_1' entry (found through the
+        # duplicates table), not with the feature stored under '<key>' itself: its links belong to '<key>_1'
+        other = mkfeat("K0", "K", {"x": [Sym("x", "str", True)]}, start=500, end=600)
+        same = mkfeat("K1", "K_1", {"y": [Sym("y", "str", True)]})
+        F, E, traces = importer_traces(ctx, m, "merge", dict(attrs), fmf=[], real_dispatcher=[other, same])
+        rows = set()
+        upd_ids = set()
+        for t in traces:
+            fe, re_ = _effects_all(ctx, t)
+            rows |= set(re_)
+            upd_ids |= {e[3][-1] for e in fe if e[0] == "UPDATE"}
+        children = {r[1] for r in rows if r[1] not in ("p1", "p2")}
+        ok = bool(rows) and children == {"K_1"} and upd_ids == {"K_1"}
+        ctx.ob("R5", ok, "%s: a newcomer merged into an earlier '<key>_n' entry has its attributes and its links recorded for that entry (not for '<key>')" % name, func=m,
+               sig="%s: merged into K_1: rows updated %s, relation children %s" % (name, sorted(upd_ids), sorted(children)))
         # merge without forced fields: no forced-column statement
         F, E, traces = importer_traces(ctx, m, "merge", dict(attrs), fmf=[])
         n_forced = 0
